@@ -47,6 +47,7 @@ type G struct {
 	wq         *WaitQ
 	wqTimedOut bool
 	timer      *time.Timer
+	unwinding  bool // exitNow was called: the goroutine is being unwound by the teardown
 }
 
 func (g *G) Name() string { return g.name }
@@ -83,10 +84,11 @@ type Sched struct {
 	MaxSteps    uint64
 	capHit      string
 
-	aborted  atomic.Bool
-	finished bool
-	viol     *Violation
-	panics   []string
+	aborted        atomic.Bool
+	finished       bool
+	viol           *Violation
+	panics         []string
+	teardownPanics int // panics of deferred functions during teardown unwinding (ignored)
 
 	log    *EventLog
 	t0     time.Time
@@ -171,6 +173,7 @@ func (g *G) parkSelf() {
 }
 
 func (g *G) exitNow() {
+	g.unwinding = true
 	runtime.Goexit()
 }
 
@@ -180,7 +183,15 @@ func (s *Sched) start(g *G, f func()) {
 	go func() {
 		setLabel(unsafe.Pointer(g))
 		defer func() {
-			if r := recover(); r != nil {
+			if r := recover(); r != nil && g.unwinding {
+				// A deferred function panicked while the teardown unwinds this
+				// goroutine from the middle of a blocking operation (e.g. a
+				// compressor's Close after its Write was cut short): an artefact
+				// of the teardown, the program itself never unwinds that way.
+				s.mu.Lock()
+				s.teardownPanics++
+				s.mu.Unlock()
+			} else if r != nil {
 				st := string(debug.Stack())
 				s.mu.Lock()
 				s.panics = append(s.panics, fmt.Sprintf("goroutine %s: panic: %v\n%s", g.name, r, st))
